@@ -51,6 +51,8 @@ func main() {
 		os.Exit(cmdOne(os.Args[2:]))
 	case "selftest":
 		os.Exit(cmdSelftest(os.Args[2:]))
+	case "minimise":
+		os.Exit(cmdMinimise(os.Args[2:]))
 	}
 	fmt.Fprintln(os.Stderr, "unknown command", os.Args[1])
 	os.Exit(2)
@@ -452,5 +454,39 @@ func cmdCheck(args []string) int {
 		fmt.Fprintln(os.Stderr, "no run completed")
 		return 2
 	}
+	return 0
+}
+
+// cmdMinimise shrinks a plan file that carries a violation (development / finding curation).
+func cmdMinimise(args []string) int {
+	fs := flag.NewFlagSet("minimise", flag.ExitOnError)
+	file := fs.String("file", "", "")
+	out := fs.String("out", "", "")
+	budget := fs.Duration("budget", 120*time.Second, "")
+	fs.Parse(args)
+	plan, err := readPlan(*file)
+	if err != nil || plan.Violation == nil {
+		fmt.Fprintln(os.Stderr, "minimise: need a plan with a violation", err)
+		return 2
+	}
+	_, res := executePlan(plan, true, false)
+	v := hasViolation(res.Violations, plan.Violation.Property, plan.Violation.Oracle)
+	if v == nil {
+		fmt.Fprintln(os.Stderr, "minimise: the plan does not reproduce its violation")
+		return 2
+	}
+	plan.Violation = v
+	min := minimise(plan, v, *budget)
+	_, mres := executePlan(min, true, false)
+	if mv := hasViolation(mres.Violations, v.Property, v.Oracle); mv != nil {
+		min.Violation = mv
+	} else {
+		min = plan
+	}
+	if err := writePlan(*out, min); err != nil {
+		fmt.Fprintln(os.Stderr, err)
+		return 2
+	}
+	fmt.Printf("minimised to %d steps: %s\n", len(min.Steps), min.Violation.Detail)
 	return 0
 }
